@@ -719,7 +719,14 @@ impl<'a> Entry<'a> {
     /// a mutable reference to the value in the entry.
     pub fn or_insert(self, default: Item) -> &'a mut Item {
         match self {
-            Entry::Occupied(entry) => entry.into_mut(),
+            Entry::Occupied(entry) => {
+                let item = entry.into_mut();
+                // A placeholder left by mutable indexing is not a value yet
+                if item.is_none() {
+                    *item = default;
+                }
+                item
+            }
             Entry::Vacant(entry) => entry.insert(default),
         }
     }
@@ -728,7 +735,14 @@ impl<'a> Entry<'a> {
     /// and returns a mutable reference to the value in the entry.
     pub fn or_insert_with<F: FnOnce() -> Item>(self, default: F) -> &'a mut Item {
         match self {
-            Entry::Occupied(entry) => entry.into_mut(),
+            Entry::Occupied(entry) => {
+                let item = entry.into_mut();
+                // A placeholder left by mutable indexing is not a value yet
+                if item.is_none() {
+                    *item = default();
+                }
+                item
+            }
             Entry::Vacant(entry) => entry.insert(default()),
         }
     }
